@@ -281,7 +281,7 @@ package runtime
 // ---------------------------------------------------------------------------
 // C07 / C05 / C06: resource accounting and nested contexts
 // (quotas.md: a limit of 0 means "no limit"; spec.limLe is the order on limits
-// in which 0 is the top element)
+// in which 0 is the top element; spec.satAdd is addition saturating at 2^64-1)
 // ---------------------------------------------------------------------------
 
 //@ macro resOK(used, hard) = (hard == 0 || used < hard)
@@ -326,6 +326,7 @@ package runtime
 //@ func (*runtimeContextManager).TerminateContext
 //@   prop C07 C05 C06
 //@   arith bv
+//@   requires m != nil
 //@   modifies m.status
 //@   exits ContextTerminationError when m.status == StatusLive
 //@   exits_ensures m.status == StatusKilled
@@ -334,16 +335,23 @@ package runtime
 //@ func (*runtimeContextManager).KillContext
 //@   prop C07 C05
 //@   arith bv
+//@   requires m != nil
 //@   modifies m.status
 //@   exits ContextTerminationError when m.status == StatusLive
 //@   exits_ensures m.status == StatusKilled
 //@   ensures m.status == old(m.status)
+
+// The clock is external: nothing is known about its value, it has no effect.
+//@ func now
+//@   trusted
+//@   modifies nothing
 
 // The time check: the clock (now()) is external, so when it fires is not
 // determined; what is proved is the state in each outcome.
 //@ func (*runtimeContextManager).updateTimeUsed
 //@   prop C07 C05
 //@   arith bv
+//@   requires m != nil
 //@   modifies m.usedResources.Millis, m.status
 //@   exits ContextTerminationError
 //@   exits_ensures old(m.status) == StatusLive && m.status == StatusKilled && spec.atLimit(m.usedResources.Millis, m.hardLimits.Millis)
@@ -354,67 +362,66 @@ package runtime
 //@ func (*runtimeContextManager).requireCPU
 //@   prop C07 C05
 //@   arith bv
-//@   requires ctxOK(m)
+//@   requires m != nil
 //@   modifies m.usedResources.Cpu, m.usedResources.Millis, m.nextCpuThreshold, m.status
 //@   exits ContextTerminationError
 //@   exits_ensures old(m.status) == StatusLive && m.status == StatusKilled
 //@   exits_ensures m.usedResources.Cpu == old(m.usedResources.Cpu)
-//@   exits_ensures (m.stopLevel&HardStop != 0) || spec.atLimit(old(m.usedResources.Cpu) + cpuAmount, m.hardLimits.Cpu) || !spec.addNoWrap(old(m.usedResources.Cpu), cpuAmount) || (m.trackTime && spec.atLimit(m.usedResources.Millis, m.hardLimits.Millis))
-//@   ensures m.usedResources.Cpu == old(m.usedResources.Cpu) + cpuAmount
-//@   ensures m.status == StatusLive ==> spec.addNoWrap(old(m.usedResources.Cpu), cpuAmount)
+//@   exits_ensures (m.stopLevel&HardStop != 0) || spec.atLimit(spec.satAdd(old(m.usedResources.Cpu), cpuAmount), m.hardLimits.Cpu) || (m.trackTime && spec.atLimit(m.usedResources.Millis, m.hardLimits.Millis))
+//@   ensures m.usedResources.Cpu == spec.satAdd(old(m.usedResources.Cpu), cpuAmount)
 //@   ensures m.status == old(m.status)
 //@   ensures m.status == StatusLive ==> m.stopLevel&HardStop == 0 && !spec.atLimit(m.usedResources.Cpu, m.hardLimits.Cpu)
-//@   ensures ctxOK(m)
+//@   ensures m.usedResources.Millis != old(m.usedResources.Millis) ==> m.trackTime && (m.status == StatusLive ==> resOK(m.usedResources.Millis, m.hardLimits.Millis))
 //@   ghost cpu += cpuAmount
 
 //@ func (*runtimeContextManager).RequireCPU
 //@   prop C07 C05
 //@   arith bv
-//@   requires ctxOK(m)
+//@   requires m != nil
 //@   modifies m.usedResources.Cpu, m.usedResources.Millis, m.nextCpuThreshold, m.status
 //@   exits ContextTerminationError
 //@   exits_ensures old(m.trackCpu) && old(m.status) == StatusLive && m.status == StatusKilled && m.usedResources.Cpu == old(m.usedResources.Cpu)
-//@   ensures m.trackCpu ==> m.usedResources.Cpu == old(m.usedResources.Cpu) + cpuAmount
-//@   ensures !m.trackCpu ==> m.usedResources.Cpu == old(m.usedResources.Cpu)
+//@   exits_ensures (m.stopLevel&HardStop != 0) || spec.atLimit(spec.satAdd(old(m.usedResources.Cpu), cpuAmount), m.hardLimits.Cpu) || (m.trackTime && spec.atLimit(m.usedResources.Millis, m.hardLimits.Millis))
+//@   ensures m.trackCpu ==> m.usedResources.Cpu == spec.satAdd(old(m.usedResources.Cpu), cpuAmount)
+//@   ensures !m.trackCpu ==> m.usedResources.Cpu == old(m.usedResources.Cpu) && m.usedResources.Millis == old(m.usedResources.Millis)
 //@   ensures m.status == old(m.status)
-//@   ensures m.trackCpu && m.status == StatusLive ==> spec.addNoWrap(old(m.usedResources.Cpu), cpuAmount) && !spec.atLimit(m.usedResources.Cpu, m.hardLimits.Cpu)
-//@   ensures ctxOK(m)
+//@   ensures m.trackCpu && m.status == StatusLive ==> m.stopLevel&HardStop == 0 && !spec.atLimit(m.usedResources.Cpu, m.hardLimits.Cpu)
+//@   ensures m.status == StatusLive && m.usedResources.Millis != old(m.usedResources.Millis) ==> resOK(m.usedResources.Millis, m.hardLimits.Millis)
 
 // Memory counter.
 //@ func (*runtimeContextManager).requireMem
 //@   prop C07 C06
 //@   arith bv
-//@   requires ctxOK(m)
+//@   requires m != nil
 //@   modifies m.usedResources.Memory, m.status
 //@   exits ContextTerminationError
 //@   exits_ensures old(m.status) == StatusLive && m.status == StatusKilled
 //@   exits_ensures m.usedResources.Memory == old(m.usedResources.Memory)
-//@   exits_ensures (m.stopLevel&HardStop != 0) || spec.atLimit(old(m.usedResources.Memory) + memAmount, m.hardLimits.Memory) || !spec.addNoWrap(old(m.usedResources.Memory), memAmount)
-//@   ensures m.usedResources.Memory == old(m.usedResources.Memory) + memAmount
-//@   ensures m.status == StatusLive ==> spec.addNoWrap(old(m.usedResources.Memory), memAmount)
+//@   exits_ensures (m.stopLevel&HardStop != 0) || spec.atLimit(spec.satAdd(old(m.usedResources.Memory), memAmount), m.hardLimits.Memory)
+//@   ensures m.usedResources.Memory == spec.satAdd(old(m.usedResources.Memory), memAmount)
 //@   ensures m.status == old(m.status)
-//@   ensures m.status == StatusLive ==> !spec.atLimit(m.usedResources.Memory, m.hardLimits.Memory)
-//@   ensures ctxOK(m)
+//@   ensures m.status == StatusLive ==> m.stopLevel&HardStop == 0 && !spec.atLimit(m.usedResources.Memory, m.hardLimits.Memory)
 //@   ghost mem += memAmount
 
 //@ func (*runtimeContextManager).RequireMem
 //@   prop C07 C06
 //@   arith bv
-//@   requires ctxOK(m)
+//@   requires m != nil
 //@   modifies m.usedResources.Memory, m.status
 //@   exits ContextTerminationError
 //@   exits_ensures old(m.trackMem) && old(m.status) == StatusLive && m.status == StatusKilled && m.usedResources.Memory == old(m.usedResources.Memory)
-//@   ensures m.trackMem ==> m.usedResources.Memory == old(m.usedResources.Memory) + memAmount
+//@   exits_ensures (m.stopLevel&HardStop != 0) || spec.atLimit(spec.satAdd(old(m.usedResources.Memory), memAmount), m.hardLimits.Memory)
+//@   ensures m.trackMem ==> m.usedResources.Memory == spec.satAdd(old(m.usedResources.Memory), memAmount)
 //@   ensures !m.trackMem ==> m.usedResources.Memory == old(m.usedResources.Memory)
 //@   ensures m.status == old(m.status)
-//@   ensures m.trackMem && m.status == StatusLive ==> spec.addNoWrap(old(m.usedResources.Memory), memAmount) && !spec.atLimit(m.usedResources.Memory, m.hardLimits.Memory)
-//@   ensures ctxOK(m)
+//@   ensures m.trackMem && m.status == StatusLive ==> m.stopLevel&HardStop == 0 && !spec.atLimit(m.usedResources.Memory, m.hardLimits.Memory)
 
 // Releasing never drives the counter below zero: callers must show they are
 // giving back no more than is accounted (otherwise the explicit panic fires).
 //@ func (*runtimeContextManager).ReleaseMem
 //@   prop C07 C06
 //@   arith bv
+//@   requires m != nil
 //@   requires m.hardLimits.Memory > 0 ==> memAmount <= m.usedResources.Memory
 //@   modifies m.usedResources.Memory
 //@   ensures m.hardLimits.Memory > 0 ==> m.usedResources.Memory == old(m.usedResources.Memory) - memAmount
@@ -423,19 +430,27 @@ package runtime
 //@ func (*runtimeContextManager).Due
 //@   prop C07
 //@   arith bv
+//@   requires m != nil
 //@   ensures result == (m.stopLevel&SoftStop != 0 || spec.atLimit(m.usedResources.Cpu, m.softLimits.Cpu) || spec.atLimit(m.usedResources.Memory, m.softLimits.Memory) || spec.atLimit(m.usedResources.Millis, m.softLimits.Millis))
 
 //@ func (*runtimeContextManager).SetStopLevel
 //@   prop C07
 //@   arith bv
+//@   requires m != nil
 //@   modifies m.stopLevel, m.status
 //@   exits ContextTerminationError when stopLevel&HardStop != 0 && m.status == StatusLive
 //@   exits_ensures m.status == StatusKilled && m.stopLevel == old(m.stopLevel)|stopLevel
 //@   ensures m.stopLevel == old(m.stopLevel)|stopLevel && m.status == old(m.status)
 
+//@ func (ComplianceFlags).Names
+//@   trusted
+//@   modifies nothing
+
 //@ func (*runtimeContextManager).CheckRequiredFlags
 //@   prop C07 C08
 //@   arith bv
+//@   requires m != nil
+//@   modifies nothing
 //@   ensures (result == nil) == (m.requiredFlags &^ flags == 0)
 
 // Creating a child context (quotas.md; property C07): the child never has more
@@ -444,6 +459,7 @@ package runtime
 //@ func (*runtimeContextManager).PushContext
 //@   prop C07
 //@   arith bv
+//@   requires m != nil
 //@   requires m.status == StatusLive && usedOK(m) && trackOK(m)
 //@   modifies all(m)
 //@   exits ContextTerminationError
@@ -464,3 +480,34 @@ package runtime
 //@   ensures m.parent.usedResources.Cpu == old(m.usedResources.Cpu) && m.parent.usedResources.Memory == old(m.usedResources.Memory)
 //@   ensures m.parent.trackCpu == old(m.trackCpu) && m.parent.trackMem == old(m.trackMem) && m.parent.trackTime == old(m.trackTime) && m.parent.stopLevel == old(m.stopLevel)
 //@   ensures usedOK(m.parent)
+
+// User-supplied ReleaseResources callbacks are assumed not to reach into the
+// context manager (its state is unexported).
+//@ func releaseResources
+//@   trusted
+//@   modifies nothing
+
+// Ending a child context: the parent is restored exactly as it was saved, with
+// everything the child consumed added to its counters; the object handed back
+// describes the child (its final counters; 'live' becomes 'done').  If charging
+// the parent terminates it (time limit, pending stop) the parent is already the
+// current context again.
+//@ macro restored(m) = (m.hardLimits == old(m.parent.hardLimits) && m.softLimits == old(m.parent.softLimits) && m.requiredFlags == old(m.parent.requiredFlags) && m.parent == old(m.parent.parent) && m.trackCpu == old(m.parent.trackCpu) && m.trackMem == old(m.parent.trackMem) && m.trackTime == old(m.parent.trackTime) && m.stopLevel == old(m.parent.stopLevel) && m.startTime == old(m.parent.startTime))
+//@ func (*runtimeContextManager).PopContext
+//@   prop C07
+//@   arith bv
+//@   requires m != nil && m.parent != nil ==> m.parent != m
+//@   modifies all(m)
+//@   exits ContextTerminationError
+//@   exits_ensures old(m.parent) != nil && restored(m) && old(m.parent.status) == StatusLive && m.status == StatusKilled
+//@   ensures m == nil || old(m.parent) == nil ==> result == nil
+//@   ensures m != nil && old(m.parent) == nil ==> unchanged(*m)
+//@   ensures m != nil && old(m.parent) != nil ==> restored(m) && m.status == old(m.parent.status)
+//@   ensures m != nil && old(m.parent) != nil && m.trackCpu ==> m.usedResources.Cpu == spec.satAdd(old(m.parent.usedResources.Cpu), old(m.usedResources.Cpu))
+//@   ensures m != nil && old(m.parent) != nil && !m.trackCpu ==> m.usedResources.Cpu == old(m.parent.usedResources.Cpu)
+//@   ensures m != nil && old(m.parent) != nil && m.trackMem ==> m.usedResources.Memory == spec.satAdd(old(m.parent.usedResources.Memory), old(m.usedResources.Memory))
+//@   ensures m != nil && old(m.parent) != nil && !m.trackMem ==> m.usedResources.Memory == old(m.parent.usedResources.Memory)
+//@   ensures m != nil && old(m.parent) != nil ==> typeis(result, *runtimeContextManager) && fresh(asType(result, *runtimeContextManager))
+//@   ensures m != nil && old(m.parent) != nil ==> asType(result, *runtimeContextManager).usedResources == old(m.usedResources) && asType(result, *runtimeContextManager).hardLimits == old(m.hardLimits) && asType(result, *runtimeContextManager).softLimits == old(m.softLimits) && asType(result, *runtimeContextManager).requiredFlags == old(m.requiredFlags)
+//@   ensures m != nil && old(m.parent) != nil ==> asType(result, *runtimeContextManager).status == ite(old(m.status) == StatusLive, StatusDone, old(m.status))
+//@   ensures m != nil && old(m.parent) != nil && m.status == StatusLive && old(m.parent.status) == StatusLive ==> (m.trackCpu ==> !spec.atLimit(m.usedResources.Cpu, m.hardLimits.Cpu)) && (m.trackMem ==> !spec.atLimit(m.usedResources.Memory, m.hardLimits.Memory))
